@@ -41,6 +41,7 @@ def compute(fdir, crates=None):
                 groups.setdefault(b.root or b.path, []).append(b)
         for root, bodies in groups.items():
             a = A.atoms(bodies, S)
+            a["_reach"] = {}
             if any(a.values()):
                 if root in out:
                     for k in a:
@@ -106,7 +107,7 @@ def main():
             lost = {c: [] for c in CATS}
             gone_fns = []
             for c in CATS:      # per category, with the moved / inlined forgiveness of the real check
-                l, gm, gok = FP.atom_losses(ref, {k: v for k, v in res.items()}, [c])
+                l, gm, gok = FP.atom_losses(ref, {k: v for k, v in res.items()}, [c], lambda pth: res.get(pth, {}).get("_reach", {}))
                 for fn, xs in l.items():
                     lost[c] += [(fn, x) for _, x in xs]
                 for fn, xs in gm.items():
